@@ -215,8 +215,9 @@ def reaching_defs(g, name: str, at) -> list:
 class OnlyRule:
     """Forward one rule of another property's rule function to this check under a new name; drop the rest."""
 
-    def __init__(self, chk, src: str, dst: str, suffix: str, text: str) -> None:
+    def __init__(self, chk, src: str, dst: str, suffix: str, text: str, only_keys: str | None = None) -> None:
         self._chk, self._src, self._dst, self._suffix, self._text = chk, src, dst, suffix, text
+        self._only = only_keys  # forward only the obligations whose key contains this text
         self.notes: dict = {}
         self.tier = chk.tier
 
@@ -229,10 +230,13 @@ class OnlyRule:
             self._chk.instance(self._dst, n)
 
     def ok(self, rule: str, construct: str, why: str, loc: str = "", sample: bool = True) -> None:
-        if rule == self._src:
+        if rule == self._src and (self._only is None or self._only in construct):
             self._chk.ok(self._dst, construct, why, loc, sample=sample)
 
     def refute(self, rule: str, key: str, what: str, loc: str = "", path=None, **extra) -> None:
+        if rule == self._src and self._only is not None and self._only not in key:
+            self._chk.ok(self._dst, key, "not part of this property (judged by the property the rule belongs to)", loc, sample=False)
+            return
         if rule == self._src:
             self._chk.refute(self._dst, key, what + self._suffix, loc, path, **extra)
 
